@@ -655,13 +655,11 @@ fn serialize_request(request: &RequestHeaders) -> io::Result<(Bytes, BodyLength)
         format!(
             "{} {} HTTP/{}.{}\r\n",
             request.method.as_str(),
-            if request.method != http::Method::OPTIONS {
-                request
-                    .uri
-                    .path_and_query()
-                    .map_or(request.uri.path(), |x| x.as_str())
-            } else {
-                "*"
+            match request.uri.path_and_query().map(|x| x.as_str()) {
+                // RFC 7230 5.3.4: the asterisk form stands for an empty path without query
+                None | Some("/") if request.method == http::Method::OPTIONS => "*",
+                None => request.uri.path(),
+                Some(x) => x,
             },
             version_major_digit(request.version),
             version_minor_digit(request.version),
